@@ -174,7 +174,7 @@ func c02Visit(v *fsVisit) {
 		kinds = strings.Join(sortedKeys(set), "+")
 	}
 	s.Violate(engine.Violation{Sig: fmt.Sprintf("C02/%s/%s/got=%d/%s", clause, c02Class(v), v.Resp.Status, strings.ToLower(kinds)), Clause: clause, Index: v.Index, Kind: "C02",
-		Case: fsCase{State: v.State, Req: v.Req}, Expected: "tree unchanged: " + v.State.Canon(),
+		Case: fsCase{State: v.State, Req: v.Req, Spell: v.Spell}, Expected: "tree unchanged: " + v.State.Canon(),
 		Observed: fmt.Sprintf("status %d; tree %s (%s); body=%q", v.Resp.Status, v.After.Canon(), detail, trunc(string(v.Resp.Body), 160))})
 }
 
